@@ -127,6 +127,30 @@ def search(ctx, deep):
                 checked += 1
                 if np.any(np.diff(us) < -1e-9):
                     bad('not-monotone-in-y', {'v': vv, 'ys': ys}, us.tolist(), 'non-decreasing in y')
+    # history: one object re-parameterised / re-fitted and asked the same (y, v) again = a fresh object
+    for fam in B.FAMS:
+        obj = B.cls_of(fam)()
+        y = np.array([0.2, 0.5, 0.9, 0.35])
+        v = np.array([0.6, 0.3, 0.8, 0.35])
+        for step in range(5 if not deep else 15):
+            th = B.theta_random(fam, rng)
+            if fam == 'gumbel' and th > 3:
+                th = 2.5
+            obj.theta = th
+            fresh = B.make(fam, th)
+            checked += 1
+            try:
+                with np.errstate(all='ignore'):
+                    a = np.asarray(obj.percent_point(y, v), dtype=float)
+                    b = np.asarray(fresh.percent_point(y, v), dtype=float)
+            except Exception as e:  # noqa
+                continue
+            if not np.array_equal(a, b, equal_nan=True):
+                found += 1
+                ctx.fail_input(f'{fam}.percent_point', {'history_step': step, 'theta': th, 'y': y.tolist(), 'v': v.tolist()},
+                               {'reused_object': a.tolist(), 'fresh_object': b.tolist()},
+                               'percent_point depends only on (theta, y, v)', f'{fam}.percent_point:history-dependence')
+                break
     ctx.support = {'oracle_checks': checked, 'failures': found, 'deep': deep}
 
 
